@@ -6,16 +6,24 @@ origin in the symmetric-sum formulation, all kept as integers times 120; from th
 centre of mass, inertia about the centre / the origin / any frame (R, t); |cross|^2 per face).
 
 The harness enumerates closed oriented lattice surfaces (tetrahedra in every vertex order -
-hence both orientations and all flat ones -, pillows, cubes, octahedra, L-prisms, a genus-1 ring,
-hollow / multi-body / overlapping shells, translated copies), densities, centre-of-mass
-overrides and frames (24 cube rotations x integer translations), calls the real
-trimesh.triangles.mass_properties / trimesh.triangles.area and Trimesh.volume / center_mass /
-moment_inertia / mass / density / area / area_faces / moment_inertia_frame, projects every float
-to an integer (value x known denominator, rounded, residual <= 1e-9 relative, otherwise the
-field is reported off-lattice) and has TLC validate every record in batch (code -> spec).
-TLC also checks, on the recorded inputs, that they are closed and consistently wound and the
-laws of the reference itself (reversal, translation covariance, additivity over bodies, direct
-tetrahedron formula, parallel-axis + rotation law against the definition of the frame inertia).
+hence both orientations and all flat ones -, pillows, cubes, boxes, octahedra, L-prisms, a
+genus-1 ring, hollow / multi-body / overlapping shells, translated copies), densities,
+centre-of-mass overrides and frames (24 cube rotations x integer translations), calls the real
+  "tri":  trimesh.triangles.mass_properties(triangles, density, center_mass) + triangles.area
+  "mesh": Trimesh(vertices, faces, process=False) with .density / .center_mass set, then
+          .volume .mass .density .center_mass .moment_inertia .area_faces .area
+          .moment_inertia_frame(T)
+projects every float to an integer (value x the known denominator, rounded; residual <= 1e-9
+relative, otherwise the field is reported off-lattice) and has TLC validate every record in
+batch against the reference (code -> spec).  Python computes no expected value.
+TLC also checks on the recorded inputs that they are closed and consistently wound
+(InputSane) and the laws of the reference itself (RefLaws: reversal, translation covariance,
+additivity over bodies, direct tetrahedron formula, parallel-axis + rotation law against the
+definition of the frame inertia).
+
+quick is a regression screen (origin slice of the {0,1,2}^12 grid + seeded points of
+{0..3}^12 + composite surfaces); thorough covers the unisolvent grid {0..3}^12 up to symmetry
+(see `unisolvence_note` in the evidence) block by block.
 """
 import itertools
 import math
@@ -411,21 +419,21 @@ def composite_items(B, tier, rs):
 def sampled_items(B, tier, rs, limit=None):
     """Seeded samples; a generator that hands out a block whenever `limit` items are pending."""
     big = tier == "thorough"
-    nsamp = 200000 if big else 10000
+    nsamp = 120000 if big else 10000
     P = rs.randint(0, 4, size=(nsamp, 4, 3))
     for n in range(nsamp):
         a, b, c, d = P[n].tolist()
         B.add("tet", "tet_grid4_sampled", tet_faces(a, b, c, d), nframes=1, laws=(not big or n % 8 == 0))
         if limit and len(B.items) >= limit:
             yield B.take()
-    nsamp = 50000 if big else 3000
+    nsamp = 30000 if big else 3000
     P = rs.randint(0, 4, size=(nsamp, 4, 3)) + rs.randint(-3, 4, size=(nsamp, 1, 3))
     for n in range(nsamp):
         a, b, c, d = P[n].tolist()
         B.add("tet", "tet_grid4_translated", tet_faces(a, b, c, d), nframes=2, laws=(not big or n % 8 == 0))
         if limit and len(B.items) >= limit:
             yield B.take()
-    nsamp = 40000 if big else 2500
+    nsamp = 20000 if big else 2500
     P = rs.randint(0, 4, size=(nsamp, 3, 3)) + rs.randint(-2, 3, size=(nsamp, 1, 3))
     for n in range(nsamp):
         a, b, c = P[n].tolist()
@@ -569,8 +577,8 @@ def main(argv):
     grid4 = ("every 4-subset of the 64 lattice points {0..3}^3 in one vertex order (C(64,4) = 635376; each flat one "
              "again with a companion tetrahedron), both transposition pillows over every ordered triple of {0..3}^3 "
              "(2 x 4^9 = 524288, with a companion tetrahedron), every ordered 4-tuple over {0,1,2}^3 (3^12 = 531441), "
-             "all 3^9 pillows over {0,1,2}^3, 200000 + 50000 seeded tetrahedra of the {0..3}^12 grid / its "
-             "translates, 40000 seeded pillows, composite surfaces")
+             "all 3^9 pillows over {0,1,2}^3, 120000 + 30000 seeded tetrahedra of the {0..3}^12 grid / its "
+             "translates, 20000 seeded pillows, composite surfaces at 10 offsets, 4000 random pairs of tetrahedra")
     cov = {
         "states": n["states"], "transitions": n["states"],
         "traces_validated_against_impl": n["obs"],
